@@ -239,7 +239,7 @@ def gen(rng, tier, i):
         sc.add_client("after-post%d" % k, lis["http"], [dict(o, on_fail="continue", timeout_ms=8000) for o in hs] + [op("recv_eof", timeout_ms=8000, on_fail="continue")], start_ms=350 + 100 * k)
     sc.meta = {"cls": "m%d" % len(desc), "cfgkey": str(hash(json.dumps(cfg, sort_keys=True, default=str)) % 10 ** 9), "mutations": desc, "probes": probes, "posts": len(post_bodies), "keep_ops": True}
     sc.max_ms = 40000
-    plan = sc.plan(want_events=False)
+    plan = sc.plan(want_events=False, watchdog_s=30)
     return plan
 
 
